@@ -373,7 +373,7 @@ def _judge(rep: Report, rule: str, m, fi, c) -> None:
         msg.append(problem or f"the value compared with the {kind}-date is {show(date_t)[:160]}, not an entry's own timestamp.date() (instant-based or converted comparisons disagree with the calendar-date window near midnight / across UTC offsets)")
     if not structure_ok:
         msg.append(f"the window comparison is combined with other conditions in {short(node, 100)} so that the bound is not applied to every entry")
-    rep.check(ok_op and ok_date and structure_ok, rule, fi.module, fi.qualname, f"{fi.qualname}: {kind}-bound comparison {short(node, 70)}", "; ".join(msg), where, detail=f"excluded iff date {excl_op} {kind}_date")
+    rep.check(ok_op and ok_date and structure_ok, rule, fi.module, fi.qualname, f"{fi.qualname}: {kind}-bound comparison {short(node, 70)}", "; ".join(msg), where, detail=f"excluded iff date {excl_op} {kind}_date", definite=True)
 
 
 def missing_bound(rep: Report, rule: str, m, fi, kind: str, construct: str, consequence: str) -> None:
@@ -420,7 +420,7 @@ def missing_bound(rep: Report, rule: str, m, fi, kind: str, construct: str, cons
             ts_side = [t for t in txt if "timestamp" in t and ".date()" not in t and t not in derived]
             conv_side = [t for t in txt if "timestamp" in t and ".date()" in t and any(k in t for k in ("astimezone", "replace(", "utc"))]
             if has_bound and (ts_side or conv_side):
-                rep.violation(rule, fi.module, fi.qualname, construct, f"{fi.qualname} enforces the {kind}-date by {short(n, 100)}: the bound is applied to an instant / a converted date, not to the entry's own timestamp.date(), so entries within their UTC offset of midnight on the boundary day fall on the wrong side: {consequence}", loc(n))
+                rep.violation(rule, fi.module, fi.qualname, construct, f"{fi.qualname} enforces the {kind}-date by {short(n, 100)}: the bound is applied to an instant / a converted date, not to the entry's own timestamp.date(), so entries within their UTC offset of midnight on the boundary day fall on the wrong side: {consequence}", loc(n), definite=True)
                 return
     scopes = [fi.node] + ([o.node for o in fi.cls.methods.values() if o is not fi] if fi.cls is not None and derived else [])
     for n in (x for sc in scopes for x in ast.walk(sc)):
@@ -430,7 +430,7 @@ def missing_bound(rep: Report, rule: str, m, fi, kind: str, construct: str, cons
                 side = unparse(n.func).split(".")[-1]
                 wrong = (kind == "to" and side == "bisect_left") or (kind == "from" and side in ("bisect_right", "bisect"))
                 if wrong:
-                    rep.violation(rule, fi.module, fi.qualname, construct, f"{fi.qualname} locates the {kind}-date with {short(n, 80)}: both bounds are inclusive, so the to-date needs bisect_right and the from-date bisect_left; entries dated exactly on the {kind}-date are cut off: {consequence}", loc(n))
+                    rep.violation(rule, fi.module, fi.qualname, construct, f"{fi.qualname} locates the {kind}-date with {short(n, 80)}: both bounds are inclusive, so the to-date needs bisect_right and the from-date bisect_left; entries dated exactly on the {kind}-date are cut off: {consequence}", loc(n), definite=True)
                     return
                 # right side of the bisection: accepted when the bisected list is the list of the entries' own calendar dates
                 from ..loader import enclosing_function as _ef
